@@ -4,6 +4,7 @@
   specification (the list of all events ever added; ids [lowest, length) available).
 -/
 import YkProofs.Ring
+import YkProofs.Stream
 namespace Yk.C20
 open Yk
 
@@ -59,6 +60,23 @@ theorem store_bound (s : Store) (hs : s.idx ≤ s.events.length) (ev : Ev) :
     (s.idx < s.events.length → (s.store ev).idx = s.idx + 1) ∧
     (s.collect.1.length = s.idx) :=
   store_bound_aux s hs ev
+
+/-- Stream set-up, every interleaving of the event loop (add; publish per event) with CreateEventStream
+    (register; read history): the subscriber receives the history followed by every later event once and in
+    order — PROVIDED no event published to the new stream is older than the oldest history event that was read
+    (always true when no history is requested).  `stream_order_partial` because the unrestricted statement is
+    false for the code: see `stream_order_refuted` and KNOWN_FINDINGS (C20 stream-order). -/
+theorem stream_order_partial (count cap : Nat) (sch : List SStep) (s : SState)
+    (h : srun count cap {} sch = some s)
+    (hc : min count cap = 0 ∨ ∀ e ∈ s.localQ, s.histLen < e + min count cap) :
+    streamOK s = true :=
+  stream_ok_of_covered count cap sch s h hc
+
+/-- The unrestricted statement fails: register; two events added and published; history of 1 read:
+    the subscriber gets event 2, then 1, then 2 again (replayed on the real code through the yield hook). -/
+theorem stream_order_refuted :
+    ∃ sch s, srun 1 10 {} sch = some s ∧ consumerOut s = [2, 1, 2] ∧ streamOK s = false :=
+  ⟨[.reg, .add, .pub, .add, .pub, .hist], _, rfl, by decide, by decide⟩
 
 example : validOps [.add 1, .resize 3, .add 2] := by
   intro n h; simp at h; omega
